@@ -470,3 +470,8 @@ add("alpha1-guard-weakened-to-strict", F, ["C07"], "dfols/solver.py", "    if ex
 # ---- C07-17: every cycle of the main loop passes a progress site
 add("main-loop-skips-iterations-while-delta-is-large", F, ["C07"], "dfols/solver.py", "        if do_logging:\n            module_logger.debug(\"*** Iter %g (delta = %g, rho = %g) ***\" % (current_iter, control.delta, control.rho))\n",
     "        if do_logging:\n            module_logger.debug(\"*** Iter %g (delta = %g, rho = %g) ***\" % (current_iter, control.delta, control.rho))\n        if control.delta > 1e9:\n            control.delta = 0.5 * control.delta\n            continue\n", "C07-17")
+
+# ---- C07-18: every while loop has a counter that ends it
+add("projection-initialiser-counter-not-advanced-on-one-path", F, ["C07"], "dfols/controller.py",
+    "                    # rank was improved, update D_rank for next comparison\n                    D_rank = D_rank2\n                k += 1\n\n            # Try random combination of negatives...",
+    "                    # rank was improved, update D_rank for next comparison\n                    D_rank = D_rank2\n                    k += 1\n\n            # Try random combination of negatives...", "C07-18")
